@@ -530,6 +530,13 @@ func runC11(seed int64, tier string, sc *Script) map[string]any {
 	// sibling directory whose name extends the working directory's
 	runOne("sym-abs-dotdot", []tarEnt{{'s', "d/a", "ABSWD:d/../../../../outside/victim"}, {'r', "d/a", ""}}, "")
 	runOne("sym-abs-dotdot", []tarEnt{{'d', "d/s", ""}, {'s', "d/s/l1", "ABSWD:d/d/s/../../../../../../outside/victim"}, {'r', "d/s/l1", ""}}, "")
+	// the same targets for hard links (a regular entry replaces a symbolic link at its path,
+	// a hard link it writes into), and for a link that is left behind and then named by a
+	// later push
+	runOne("hard-abs-dotdot", []tarEnt{{'h', "d/a", "ABSWD:d/../../../../outside/victim"}, {'r', "d/a", ""}}, "")
+	runOne("hard-abs-dotdot", []tarEnt{{'d', "d/s", ""}, {'h', "d/s/l1", "ABSWD:d/d/s/../../../../../../outside/victim"}, {'r', "d/s/l1", ""}}, "")
+	runOne("sym-abs-dotdot-then-named", []tarEnt{{'s', "d/l", "ABSWD:d/../../../../outside/victim"}}, "d/l")
+	runOne("sym-abs-dotdot-then-named", []tarEnt{{'d', "d/s", ""}, {'s', "d/s/l", "ABSWD:d/../../../../outside"}}, "d/s/l/victim")
 	// absolute entry names that are lexically inside the unpack directory but whose ".."
 	// segments follow a symbolic link an earlier entry created (the link itself stays inside)
 	runOne("name-abs-dotdot", []tarEnt{{'d', "d/d1/d2", ""}, {'s', "d/d1/d2/l", "../.."}, {'r', "ABSWD:d/d1/d2/l/../../victim", ""}}, "")
@@ -545,6 +552,8 @@ func runC11(seed int64, tier string, sc *Script) map[string]any {
 	archiveTitle = "."
 	runOne("sym-sibling-prefix", []tarEnt{{'s', "l", "../wd-backup/victim"}, {'r', "l", ""}}, "")
 	runOne("sym-sibling-prefix", []tarEnt{{'d', "s", ""}, {'s', "s/l", "../../wd-backup/victim"}, {'r', "s/l", ""}}, "")
+	runOne("hard-sibling-prefix", []tarEnt{{'h', "l", "ABS:p1/p2/wd-backup/victim"}, {'r', "l", ""}}, "")
+	runOne("hard-sibling-prefix", []tarEnt{{'d', "s", ""}, {'h', "s/l", "ABS:p1/p2/wd-backup/victim"}, {'r', "s/l", ""}}, "")
 	archiveTitle = "d"
 	// a directory reached through a chain of symlinks: the ancestor check must reject the file beneath it
 	runOne("dir-chain", []tarEnt{{'d', "d/s", ""}, {'s', "d/s/l1", ".."}, {'s', "d/s/l2", "l1/../.."}, {'r', "d/s/l2/x", ""}}, "")
